@@ -13,12 +13,12 @@ from harness import check, judge, replay
 LENSES = {
     "quick": [("core_pointwise", 6000), ("core_reduce", 6000), ("core_index", None), ("core_stackcat", 5000),
               ("subs_tensor", 3000), ("subs_chain", None), ("binder_indep", None), ("binder_names", 6000), ("mixed_contraction", 6000), ("semiring_logaddexp", 2500),
-              ("semiring_orand", 2000), ("gauss_pointwise", 2000), ("delta_ops", 3000)],
+              ("semiring_orand", 2000), ("gauss_pointwise", 2000), ("delta_ops", 3000), ("delta_indep", None)],
     "thorough": [("core_pointwise", None), ("core_reduce", None), ("core_index", None), ("core_stackcat", None),
                  ("subs_tensor", None), ("subs_chain", None), ("binder_indep", None), ("binder_names", 40000), ("mixed_contraction", None), ("semiring_addmul", 30000),
                  ("semiring_logaddexp", 30000), ("semiring_maxadd", 20000), ("semiring_orand", 20000),
                  ("gauss_pointwise", None), ("delta_ops", 40000), ("negred", None), ("core_moreops", None),
-                 ("core_intops", None), ("delta_integ", 20000)],
+                 ("core_intops", None), ("delta_integ", 20000), ("delta_indep", None)],
 }
 
 
